@@ -13,7 +13,7 @@ from puresnmp.exc import ErrorResponse, NoSuchOID
 
 PROP = "C08"
 LEVEL = "exploration"
-SHARDS = {"quick": 4, "thorough": 16}
+SHARDS = {"quick": 8, "thorough": 16}
 TIME_CAP = {"quick": 50, "thorough": 600}
 RULE = (
     "Full matrix: error-status in {1..18, 19, 255, -1, 2^31-1} x error-index 0..len+3 (plus "
@@ -313,23 +313,8 @@ def run(R):
     thread_stress(R)  # in every shard, before this process has seen any error response
     if R.shard == 1 % R.nshards:
         long_lived(R)
-    cases = list(matrix())
-    R.notes["matrix_size_per_level"] = len(cases)
     k = 0
-    for level in rig.LEVELS:
-        heavy = level.startswith("v3")
-        for j, (op, status, index, nvb, when, nreq) in enumerate(cases):
-            if heavy and not full:
-                # a stride through the matrix that still visits every status,
-                # every op and out-of-range indexes on each v3 level
-                if (j + rig.LEVELS.index(level)) % 9:
-                    continue
-            k += 1
-            if not R.mine(k):
-                continue
-            if not R.time_left():
-                return
-            run_case(R, level, op, status, index, nvb, when, nreq)
+    # the small deterministic blocks first: a time cap must not starve them
     # hundreds of bindings: error-index values around 127/128 and 256/257 that DO name a
     # binding
     for level in ("v2c", "v1", "v3-md5-priv"):
@@ -349,7 +334,25 @@ def run(R):
                 if not R.mine(k):
                     continue
                 run_case(R, level, op, status, index, None, 0, 1, reboot=True)
-    R.exhaustive = full
+    complete = True
+    cases = list(matrix())
+    R.notes["matrix_size_per_level"] = len(cases)
+    for level in rig.LEVELS:
+        heavy = level.startswith("v3")
+        for j, (op, status, index, nvb, when, nreq) in enumerate(cases):
+            if heavy and not full:
+                # a stride through the matrix that still visits every status,
+                # every op and out-of-range indexes on each v3 level
+                if (j + rig.LEVELS.index(level)) % 9:
+                    continue
+            k += 1
+            if not R.mine(k):
+                continue
+            if not R.time_left():
+                complete = False
+                break
+            run_case(R, level, op, status, index, nvb, when, nreq)
+    R.exhaustive = full and complete
 
 
 def replay(R, v):
